@@ -76,6 +76,9 @@ func genC13(r *Rng) *Case {
 		if r.Chance(1, 8) {
 			op.ML = -1
 		}
+		if r.Chance(1, 4) {
+			op.Other = 1 // a 64-byte key whose halves do not belong together: still "any content"
+		}
 		if op.Opt.Hash == 1 && r.Chance(1, 3) {
 			op.Alias = 9 // wrong pre-hash length
 			op.ML = []int{0, 1, 32, 63, 65, 128}[r.Intn(6)]
